@@ -9,6 +9,7 @@ import sys
 import traceback
 
 CHECKS = {
+    "C11": ("harness.checks.c11", "C11"),
     "C19": ("harness.checks.c19", "C19"),
     "C04": ("harness.checks.relayfam", "C04"),
     "C16": ("harness.checks.c16", "C16"),
